@@ -1,6 +1,7 @@
 package kv
 
 import (
+	"bytes"
 	"encoding/base64"
 	"errors"
 	"fmt"
@@ -45,11 +46,23 @@ func decrypt(key *[32]byte, c []byte) ([]byte, error) {
 	var nonce [encryptNonceLen]byte
 	copy(nonce[:], c[:encryptNonceLen])
 	m, ok := secretbox.Open(nil, c[encryptNonceLen:], &nonce, key)
-	if !ok {
-		// fallback to the old implementation
-		return crypto_secretbox_open_easy(c[24:], c[0:24], key)
+	if ok && (len(m) <= 64-crypto_secretbox_zerobytes || isOwnNonce(key, m, nonce[:])) {
+		return m, nil
 	}
-	return m, nil
+	// Fall back to the old implementation. Its boxes carry the same MAC as
+	// secretbox's, so they pass the check above, but beyond the first block
+	// they were encrypted with a different key stream and would come out as
+	// garbage. encrypt() derives the nonce from the message, which tells a
+	// box of the current format from an old one.
+	return crypto_secretbox_open_easy(c[24:], c[0:24], key)
+}
+
+func isOwnNonce(key *[32]byte, message, n []byte) bool {
+	combined := make([]byte, 0, len(message)+len(key))
+	combined = append(combined, message...)
+	combined = append(combined, key[:]...)
+	expected, err := nonce(combined, encryptNonceLen)
+	return err == nil && bytes.Equal(expected[:encryptNonceLen], n)
 }
 
 func nonce(message []byte, nonce_len int) ([]byte, error) {
